@@ -38,14 +38,16 @@ CLAUSES = [
      ["SCoda.C04c.effect_visible", "SCoda.C04c.exec_stages", "SCoda.C04c.effect_visible_op", "SCoda.C04c.overwrite_visible"]),
     ("TIE BY TRANSLATION: the wrapper methods of sequence.py are re-translated statement by statement on every run (Gen/WrapFns.lean, tools/py2lean_wrap.py) and "
      "each translation is proved equal to the wrapper model function the theorems above are about — same state and result or same error, for every state and "
-     "argument; composed: any legal history executed by the translated source keeps the invariant and stays readable. View-level methods are links (Model/ViewLib.lean)",
+     "argument (the `abs` / `rel` properties: same state AND the object handed out is that view; every default argument is pinned; decorators and the conventions "
+     "AbstractSequence.__init__/copy are refused / pinned by the translator); composed: any legal history executed by the translated source keeps the invariant and stays readable. View-level methods are links (Model/ViewLib.lean)",
      ["SCoda.WrapTie.getAbs_eq", "SCoda.WrapTie.getRel_eq", "SCoda.WrapTie.invalidateAbs_eq", "SCoda.WrapTie.invalidateRel_eq", "SCoda.WrapTie.refresh_eq",
       "SCoda.WrapTie.copy_eq", "SCoda.WrapTie.pad_eq", "SCoda.WrapTie.setChannel_eq", "SCoda.WrapTie.normalise_eq", "SCoda.WrapTie.cutoff_eq",
       "SCoda.WrapTie.addAbs_eq", "SCoda.WrapTie.addRel_eq", "SCoda.WrapTie.overwriteAbs_eq", "SCoda.WrapTie.overwriteRel_eq",
       "SCoda.WrapTie.messagesAbs_eq", "SCoda.WrapTie.messagesRel_eq", "SCoda.WrapTie.quantise_eq", "SCoda.WrapTie.quantiseNoteLengths_eq",
       "SCoda.WrapTie.quantiseAndNormalise_eq", "SCoda.WrapTie.scale_eq", "SCoda.WrapTie.transpose_eq", "SCoda.WrapTie.split_eq",
       "SCoda.WrapTie.concatenate_eq", "SCoda.WrapTie.merge_eq", "SCoda.WrapTie.getSequenceDuration_eq", "SCoda.WrapTie.isEmpty_eq",
-      "SCoda.WrapTie.translated_covered", "SCoda.C04d.genExec_eq", "SCoda.C04d.genRun_eq", "SCoda.C04d.history_inv_gen", "SCoda.C04d.history_readable_gen"]),
+      "SCoda.WrapTie.translated_covered", "SCoda.WrapTie.equals_eq", "SCoda.WrapTie.defaults_pinned", "SCoda.WrapTie.message_type_order",
+      "SCoda.ViewTie.view_defaults_pinned", "SCoda.C04d.genExec_eq", "SCoda.C04d.genRun_eq", "SCoda.C04d.history_inv_gen", "SCoda.C04d.history_readable_gen"]),
     ("TIE BY TRANSLATION, view level: the methods of RelativeSequence / AbsoluteSequence / MidiTrack that the wrapper calls and that have no dict-of-dict state are "
      "re-translated statement by statement on every run (Gen/ViewFns.lean, tools/py2lean.py: for/while/break/continue, in-place edits, binary_insort's bisection with "
      "fuel) and each translation is proved equal to the hand model for all inputs whose channels are not None: both conversions, pad, set_channel, concatenate, both "
